@@ -588,7 +588,7 @@ func main() {
 	// exhaustive: all histories over an alphabet of 5 ids, N in {1,2,3}; lengths <= 6 under the
 	// oracle, lengths <= 3 (quick) / <= 5 (thorough) also through the correspondence
 	alpha := []int64{3, 5, 7, 9, 11}
-	maxLen, emitLen := 6, c.N(3, 5)
+	maxLen, emitLen := c.N(6, 7), c.N(3, 4)
 	for _, n := range []int{1, 2, 3} {
 		var rec func(h []int64)
 		rec = func(h []int64) {
@@ -605,9 +605,9 @@ func main() {
 		rec(nil)
 	}
 	// random histories: small alphabets (many duplicates / old ids) and realistic increasing ids with replays
-	for i := 0; i < c.N(160, 6000); i++ {
+	for i := 0; i < c.N(160, 900); i++ {
 		n := []int{1, 2, 3, 5, 8, 100}[c.Rng.Intn(6)]
-		k := c.Rng.Range(1, c.N(50, 300))
+		k := c.Rng.Range(1, c.N(50, 120))
 		ids := make([]int64, k)
 		switch c.Rng.Intn(3) {
 		case 0:
@@ -637,7 +637,7 @@ func main() {
 				ids[j] = base + int64(c.Rng.Intn(2*n+6))*4
 			}
 		}
-		bufCase("random", n, ids, true)
+		bufCase("random", n, ids, !c.Thorough() || i%3 == 0) // thorough: every case under the oracle, a third through Coq
 	}
 	// malformed stream for the buffer: zero / negative ids (model must agree; no oracle)
 	for i := 0; i < c.N(20, 300); i++ {
@@ -649,9 +649,9 @@ func main() {
 	}
 	// concurrent deliveries (one goroutine per frame in readLoop): the same id several times, and
 	// distinct fresh ids, against windows of several sizes and fill levels
-	for i := 0; i < c.N(16, 600); i++ {
+	for i := 0; i < c.N(16, 60); i++ {
 		n := []int{4, 16, 100}[c.Rng.Intn(3)]
-		cc := concCase{N: n, Tries: c.N(150, 2000)}
+		cc := concCase{N: n, Tries: c.N(150, 400)}
 		for j, p := 0, c.Rng.Intn(n-3); j < p; j++ {
 			cc.Preload = append(cc.Preload, int64(1000+4*j+1))
 		}
@@ -672,7 +672,7 @@ func main() {
 	{
 		c.Obs.Evaluations++
 		c.Count("conc:conn")
-		seed, tries := c.Rng.U64(), c.N(150, 5000)
+		seed, tries := c.Rng.U64(), c.N(150, 1500)
 		var msg string
 		if !mtx.Watchdog(60*time.Second, func() { msg = runConcConn(seed, tries) }, nil) {
 			msg = "concurrent deliveries to a Conn did not finish within 60 s"
@@ -682,10 +682,10 @@ func main() {
 		}
 	}
 	// the pipeline on a real Conn
-	for i := 0; i < c.N(70, 2500); i++ {
+	for i := 0; i < c.N(70, 400); i++ {
 		pipeRun("mixed", genPipe(c.Rng, c.Rng.Range(3, 30), c.Rng.Bool()))
 	}
-	for i := 0; i < c.N(3, 60); i++ { // long, mostly valid: more than N accepted ids, so that the window is full
+	for i := 0; i < c.N(3, 15); i++ { // long, mostly valid: more than N accepted ids, so that the window is full
 		pipeRun("long", genPipe(c.Rng, c.Rng.Range(130, 170), true))
 	}
 	c.Obs.Rule = "buffer histories: corpus (incl. the repaired 100,200,100), ALL histories of length <=6 over 5 ids for N=1,2,3 (oracle; lengths <=3 also through Coq), random histories with duplicates/old ids/realistic ids for N in {1,2,3,5,8,100}, a zero/negative stream; non-trivial = distinct history containing a duplicate or an id below the running maximum. Pipeline: histories of 3..170 encrypted frames injected into a real Conn (valid, other key, tampered, truncated, other session, client-typed, +-boundary of the 300 s/30 s window, replays, padding 0..1292, bad lengths); non-trivial = distinct history with both delivered and dropped frames"
